@@ -227,12 +227,111 @@ def t_caching_repo(ex):
             ex.oblige(f"{P}.ensures.a_miss_queries_the_database_for_the_new_restriction_with_the_forced_sorter", calls[1][0] is r2 and calls[1][1] is strategy)
 
 
+# ------------------------------------------------------------------ bounded stand-in: equal-looking variants on the real classes ----
+def enum_pairs(seed):
+    """independently constructed restrictions from a generator of equal-looking variants: whenever two compare equal they must hash alike
+    and match exactly the same packages / values; a restriction-keyed cache must answer each query with that query's own result"""
+    import itertools
+    from pkgcore.ebuild import restricts as R
+    from pkgcore.ebuild.atom import atom
+    from pkgcore.ebuild.cpv import VersionedCPV, Revision
+    from pkgcore.restrictions import values, packages, boolean
+    from pkgcore.repository import misc
+    from pkgcore.test.misc import FakePkg
+    fails, cases = [], 0
+
+    def bad(model, detail):
+        if len(fails) < 6:
+            fails.append({"model": model, "detail": detail})
+
+    def compare(kind, objs, probes, matcher):
+        nonlocal cases
+        for (na, a), (nb, b) in itertools.combinations(objs, 2):
+            cases += 1
+            try:
+                equal = a == b and b == a
+            except Exception as e:
+                bad({"kind": kind, "a": na, "b": nb}, f"{na} == {nb} raised {type(e).__name__}: {e}")
+                continue
+            if not equal:
+                continue
+            if hash(a) != hash(b):
+                bad({"kind": kind, "a": na, "b": nb}, f"{na} == {nb} but their hashes differ")
+            diff = [str(p) for p in probes if matcher(a, p) != matcher(b, p)]
+            if diff:
+                bad({"kind": kind, "a": na, "b": nb, "argument": diff[0]}, f"{na} == {nb} but they disagree on {diff[:3]}")
+    vers = ["1", "1.0", "1.00", "1.01", "1.010", "1.1", "1.10", "1.100", "3.1", "3.10", "3.1.2", "3.1.20", "2.1_p1", "2.10_p1", "1.0.0"]
+    pkgs = [VersionedCPV(f"c/p-{v}{r}") for v in vers + ["3.5", "1.05", "1.5", "2.5_p1", "3.1.5"] for r in ("", "-r1")]
+    vms = []
+    for op in ("<", "<=", "=", "~", ">=", ">"):
+        for v in vers:
+            for rev in ((None,) if op == "~" else (None, Revision("0"), Revision("1"))):
+                for neg in (False, True):
+                    try:
+                        vms.append((f"VersionMatch({op!r}, {v!r}, rev={rev}, negate={neg})", R.VersionMatch(op, v, rev=rev, negate=neg)))
+                    except Exception:
+                        pass
+    compare("VersionMatch", vms, pkgs, lambda r, p: r.match(p))
+    inner = []
+    for op in ("<", "=", "~", ">="):
+        for v in vers:
+            for neg in (False, True):
+                inner.append((f"_VersionMatch({op!r}, {v!r}, negate={neg})", R._VersionMatch(op, v, None, negate=neg)))
+    compare("_VersionMatch", inner, pkgs, lambda r, p: r.match(p))
+    repo = type("Repo", (), {"repo_id": "gentoo"})()
+    fake = [FakePkg(f"a/b-{v}", slot=sl, subslot=ss, repo=repo, use=u, iuse=("x", "y")) for v in ("1.0", "1.00", "3.1", "3.10", "3.5") for sl, ss in (("0", "0"), ("0", "1"), ("1", "1"))
+            for u in ((), ("x",), ("x", "y"))]
+    atoms = ["a/b", "!a/b", "!!a/b", "a/b:0", "a/b:0/0", "a/b:0/1", "a/b:0=", "a/b:=", "a/b:*", "a/b[x,y]", "a/b[y,x]", "a/b[x]", "a/b[x(+)]", "a/b[x(-)]", "a/b[-x]", "a/b[!x?]", "a/b::gentoo",
+             "=a/b-1.0", "=a/b-1.00", "~a/b-1.0", "~a/b-1.0-r1", "=a/b-1.0-r0", ">=a/b-3.1", ">=a/b-3.10", "<a/b-3.10", "<a/b-3.1", "=a/b-3.1*", "=a/b-3.10*", ">=a/b-3.1:0[x]", ">=a/b-3.10:0[x]"]
+    aobj = []
+    for t in atoms:
+        try:
+            aobj.append((f"atom({t!r})", atom(t)))
+        except Exception:
+            pass
+    compare("atom", aobj, fake, lambda r, p: r.match(p))
+    # the restriction trees atoms and query parsers build from version restrictions
+    trees = [(f"And(PackageRestriction(fullver, {n}))", boolean.AndRestriction(packages.PackageRestriction("package", values.StrExactMatch("p")), vm)) for n, vm in vms[::3]]
+    compare("tree", trees, pkgs, lambda r, p: r.match(p))
+    vals = [("StrExactMatch('Ab')", values.StrExactMatch("Ab")), ("StrExactMatch('ab', case_sensitive=False)", values.StrExactMatch("ab", case_sensitive=False)),
+            ("StrExactMatch('AB', case_sensitive=False)", values.StrExactMatch("AB", case_sensitive=False)), ("StrExactMatch('Ab', negate=True)", values.StrExactMatch("Ab", negate=True)),
+            ("StrGlobMatch('ab')", values.StrGlobMatch("ab")), ("StrGlobMatch('ab', prefix=False)", values.StrGlobMatch("ab", prefix=False)),
+            ("StrGlobMatch('AB', case_sensitive=False)", values.StrGlobMatch("AB", case_sensitive=False)), ("StrGlobMatch('ab', case_sensitive=False)", values.StrGlobMatch("ab", case_sensitive=False)),
+            ("StrGlobMatch('ab', negate=True)", values.StrGlobMatch("ab", negate=True))]
+    compare("value", vals, ["ab", "Ab", "AB", "abc", "cab", "b", ""], lambda r, v: r.match(v))
+    cm = [("ContainmentMatch(frozenset('xy'))", values.ContainmentMatch(frozenset(("x", "y")))), ("ContainmentMatch(frozenset('yx'))", values.ContainmentMatch(frozenset(("y", "x")))),
+          ("ContainmentMatch(frozenset('xy'), match_all=True)", values.ContainmentMatch(frozenset(("x", "y")), match_all=True)),
+          ("ContainmentMatch(frozenset('x'))", values.ContainmentMatch(frozenset(("x",)))), ("ContainmentMatch(frozenset('xy'), negate=True)", values.ContainmentMatch(frozenset(("x", "y")), negate=True))]
+    compare("containment", cm, [(), ("x",), ("y",), ("x", "y"), ("z",), ("x", "z")], lambda r, v: r.match(v))
+    # the query cache replayed on version restrictions: the answer for the second query must be the second query's own answer
+    for (na, a), (nb, b) in itertools.permutations(vms[::5], 2):
+        if str(a) == str(b):
+            continue
+        cases += 1
+
+        class Db:
+            def itermatch(self, restrict, sorter=None):
+                return iter([p for p in pkgs if restrict.match(p)])
+        cache = misc.caching_repo(Db(), iter)
+        list(cache.itermatch(a))
+        got = sorted(map(str, cache.itermatch(b)))
+        want = sorted(str(p) for p in pkgs if b.match(p))
+        if got != want:
+            bad({"kind": "caching_repo", "first": na, "second": nb}, f"caching_repo asked {na} and then {nb} answers the second with {got[:4]}...; its own matches are {want[:4]}...")
+            break
+    return {"name": "C07.equal_variants.bounded_enumeration",
+            "bound": f"all pairs of {len(vms)} VersionMatch and {len(inner)} _VersionMatch objects (6 operators x {len(vers)} spellings incl. trailing and leading zeros x revisions x negation), {len(aobj)} atoms, "
+                     f"{len(trees)} restriction trees, {len(vals)} string matchers, {len(cm)} containment matchers: equal => same hash and same matches on {len(pkgs)} versions / {len(fake)} packages / sample values; "
+                     "query-cache replay on ordered pairs of version restrictions", "cases": cases, "failures": fails}
+
+
 def tasks():
     return [
         Task("C07.atom", t_atom, [("src/pkgcore/ebuild/atom.py", "atom.__init__")]),
         Task("C07._VersionMatch", t_versionmatch, [(F_RST, f"_VersionMatch.{n}") for n in ("__eq__", "_convert_ops", "__hash__", "match")]),
         Task("C07.values", t_values, [(F_VAL, "StrExactMatch.match"), (F_VAL, "StrGlobMatch.match"), (F_VAL, "ContainmentMatch.match")]),
         Task("C07.caching_repo", t_caching_repo, [("src/pkgcore/repository/misc.py", "caching_repo.match")]),
+        Task("C07.equal_variants", None, [(F_RST, "_VersionMatch.__eq__"), (F_RST, "_VersionMatch.__hash__"), ("src/pkgcore/repository/misc.py", "caching_repo.match")], enumerate=enum_pairs),
         Task("C07.hash_lists", t_hash_attr_lists, [(F_PKG, "PackageRestriction.__hash__"), (F_PKG, "Conditional.__hash__"), (F_BOOL, "base.__hash__")]),
     ]
 
